@@ -70,8 +70,8 @@ pub fn observe(g: &Graph) -> (Snap, Vec<String>) {
 		for n in [&c.node_one, &c.node_two] {
 			match ro.node(n) {
 				Some(ni) if ni.channels.iter().filter(|x| **x == *scid).count() == 1 => {},
-				Some(_) => errs.push(format!("node of channel {:x} does not list it exactly once", scid)),
-				None => errs.push(format!("channel {:x} points to a node that is not in the graph", scid)),
+				Some(_) => errs.push(format!("node of channel {} does not list it exactly once", scid)),
+				None => errs.push(format!("channel {} points to a node that is not in the graph", scid)),
 			}
 		}
 	}
@@ -81,8 +81,8 @@ pub fn observe(g: &Graph) -> (Snap, Vec<String>) {
 		for c in &chans {
 			match ro.channel(*c) {
 				Some(ci) if ci.node_one == *id || ci.node_two == *id => {},
-				Some(_) => errs.push(format!("node lists channel {:x} it is not an endpoint of", c)),
-				None => errs.push(format!("node lists channel {:x} that is not in the graph", c)),
+				Some(_) => errs.push(format!("node lists channel {} it is not an endpoint of", c)),
+				None => errs.push(format!("node lists channel {} that is not in the graph", c)),
 			}
 		}
 		if chans.is_empty() {
